@@ -51,9 +51,10 @@ func (e *Enc) applyEffect(st *State, ef *effect) {
 			nw := e.declare(fmt.Sprintf("%s@%d", n, e.n), srt)
 			st.m[n] = nw
 			e.wfArray(n, nw)
-			// r, its owner, and the owner's owner are not callee-allocated
-			e.assume(fmt.Sprintf("(forall ((r Ref)) (! (=> (and (not %s) (not %s) (not %s)) (= (select %s r) (select %s r))) :pattern ((select %s r))))",
-				inRegion("r"), inRegion(owner("r")), inRegion(owner(owner("r"))), nw, old, nw))
+			// r, its owner, and the owner's owner are not callee-allocated (emitted lazily, when the array is first read)
+			e.pendingFrame[nw] = fmt.Sprintf("(forall ((r Ref)) (! (=> (and (not %s) (not %s) (not %s)) (= (select %s r) (select %s r))) :pattern ((select %s r))))",
+				inRegion("r"), inRegion(owner("r")), inRegion(owner(owner("r"))), nw, old, nw)
+			e.pendingOld[nw] = old
 		}
 	}
 }
@@ -80,7 +81,11 @@ func (e *Enc) call(in *ssa.Call, st *State) {
 		}
 		if key := ifaceMethodKey(c.Method); e.db.pureIface[key] {
 			e.note("interface method %s is assumed pure (uninterpreted function of receiver and arguments)", key)
-			e.set(in, e.ufApply("iface."+key, append([]ssa.Value{c.Value}, c.Args...), in.Type()))
+			rv := e.ufApply("iface."+key, append([]ssa.Value{c.Value}, c.Args...), in.Type())
+			if e.db.nonnilIface[key] && len(rv.c) == 1 {
+				e.assume(not(eq(rv.c[0], "null")))
+			}
+			e.set(in, rv)
 			return
 		}
 		if t := e.dynOf(c.Value); t != nil {
@@ -94,8 +99,15 @@ func (e *Enc) call(in *ssa.Call, st *State) {
 				return
 			}
 		}
-		e.havocAll(st)
-		e.set(in, e.freshVal("invoke."+c.Method.Name(), in.Type()))
+		if pp := e.db.ifacePreserves[ifaceMethodKey(c.Method)]; len(pp) > 0 {
+			e.note("interface method %s (user code) is assumed to preserve %v", ifaceMethodKey(c.Method), pp)
+			e.havocAllPreserving(st, pp)
+		} else {
+			e.havocAll(st)
+		}
+		rv := e.freshVal("invoke."+c.Method.Name(), in.Type())
+		e.existing(st, rv)
+		e.set(in, rv)
 		return
 	}
 	switch callee := c.Value.(type) {
@@ -128,8 +140,14 @@ func (e *Enc) call(in *ssa.Call, st *State) {
 			return
 		}
 		pre := st.clone()
-		e.havocAll(st)
-		e.set(in, e.freshVal("dyncall", in.Type()))
+		if pn := callbackName(c.Value); pn != "" && e.con != nil && len(e.con.CallbackPreserves[pn]) > 0 {
+			e.havocAllPreserving(st, e.con.CallbackPreserves[pn])
+		} else {
+			e.havocAll(st)
+		}
+		dv := e.freshVal("dyncall", in.Type())
+		e.existing(st, dv)
+		e.set(in, dv)
 		if pn := callbackName(c.Value); pn != "" && e.con != nil {
 			for _, en := range e.con.Callback[pn] {
 				if e.active(en) {
@@ -394,8 +412,11 @@ func (e *Enc) staticCallV(in *ssa.Call, callee *ssa.Function, args []ssa.Value, 
 		ef := &effect{names: map[string]bool{}}
 		e.instrEffect(in, ef)
 		e.applyEffect(st, ef)
+	} else if ef := e.effectOf(callee); ef.all && con != nil && len(con.Preserves) > 0 {
+		e.note("call to %s: assumed to preserve %v (its callbacks are user code)", fname(callee), con.Preserves)
+		e.havocAllPreserving(st, con.Preserves)
 	} else {
-		e.applyEffect(st, e.effectOf(callee))
+		e.applyEffect(st, ef)
 	}
 	var res *Val
 	if pk := pkgPathOf(callee); pk == "path/filepath" && callee.Name() == "Join" && len(argv) == 1 {
@@ -406,6 +427,7 @@ func (e *Enc) staticCallV(in *ssa.Call, callee *ssa.Function, args []ssa.Value, 
 		res = e.ufTerm(pk+"."+callee.Name(), argv, in.Type())
 	} else {
 		res = e.freshVal("call."+callee.Name(), in.Type())
+		e.existing(st, res)
 	}
 	e.set(in, res)
 	e.siteResults[fmt.Sprintf("%s#%d", cn, e.lastOrd[cn])] = res
@@ -566,7 +588,26 @@ func (e *Enc) ufTerm(name string, args []*Val, rt types.Type) *Val {
 		out.c = append(out.c, app(f, argTerms...))
 	}
 	e.stringFnFacts(name, argTerms, out)
+	e.wfUF(out)
 	return out
+}
+
+// wfUF: results of uninterpreted dependency functions are bit-valid Go values (slice headers, integer ranges).
+func (e *Enc) wfUF(v *Val) {
+	key := "wfuf:" + strings.Join(v.c, ",")
+	if e.declared[key] {
+		return
+	}
+	e.declared[key] = true
+	e.wellFormedVal(v)
+	// objects handed out by an uninterpreted dependency function are not among those a LATER callee allocates
+	for k, l := range leaves(v.typ) {
+		if l.sort == "Ref" && k < len(v.c) {
+			for _, r := range []string{v.c[k], owner(v.c[k]), owner(owner(v.c[k]))} {
+				e.assume(fmt.Sprintf("(=> ((_ is obj) %s) (<= (oid %s) (+ |alloc!0| 999999999)))", r, r))
+			}
+		}
+	}
 }
 
 // stringFnFacts: ground definitions for strings.HasPrefix / HasSuffix when the affix is a literal.
@@ -792,6 +833,7 @@ func (e *Enc) localClosureCall(in *ssa.Call, lf *ssa.Function, c *ssa.CallCommon
 	}
 	e.applyEffect(st, e.effectOf(lf))
 	res := e.freshVal("localcall."+lf.Name(), in.Type())
+	e.existing(st, res)
 	e.set(in, res)
 	if con != nil {
 		results := lf.Signature.Results()
